@@ -128,6 +128,18 @@ class Gaussian(Distribution):
     @mean.setter
     def mean(self, value):
         self._mean = force_ndarray(value, flatten=True)
+        # The matrices derived from cov/prec/sqrtcov/sqrtprec were expanded to the dimension known when that
+        # parameter was assigned. If the new mean changes the dimension (e.g. a callable or unspecified mean
+        # that is now given as a vector), assign the parameter again so that they match the new dimension.
+        sqrtprec = getattr(self, '_sqrtprec', None)
+        if sqrtprec is not None and not callable(sqrtprec) and self._mean is not None and not callable(self._mean):
+            try:
+                dim = self.dim
+            except Exception:
+                dim = None
+            if dim is not None and np.ndim(sqrtprec) == 2 and sqrtprec.shape[0] != dim:
+                main_matrix = self._mutable_vars[1]
+                setattr(self, main_matrix, getattr(self, '_'+main_matrix))
 
     @property
     def cov(self):
